@@ -3,6 +3,6 @@ CHECKS = [
           technique="property-based testing (rapid): differential against an independent key-shape classifier and destination-name oracle written from the documents, plus reference evaluation of recognisable per-destination samplers on traces run through the real ingestion extraction and a real InMemCollector (synctest bubble)",
           quick=dict(checks=500, budget_s=45),
           thorough=dict(checks=6000, shards=16, budget_s=420),
-          level_text="Generated (API key shape x environment/dataset names x DatasetPrefix x rules file) cases; checks key classification, the sampler key, the lookup with __default__ fallback, the ingestion-time field list, payload field access after each ingestion path, and end-to-end which sampler decided and whether it saw the fields it reads. Exploration over the generated key shapes and name alphabets; does not prove absence.",
+          level_text="Generated (API key shape x environment/dataset names x DatasetPrefix x rules file) cases; checks key classification, the sampler key, the lookup with __default__ fallback, the ingestion-time field list, payload field access after each ingestion path, and end-to-end which sampler decided and whether it saw the fields it reads. Exploration over the generated key shapes and name alphabets (incl. unicode, spaces, names with leading/trailing dots, `.` and `..`, a name and its dotted twin both configured); does not prove absence.",
           level_note="The harness stands in for route.Router (environment lookup result is part of the case; spans are built like processEvent builds them) and hands spans to a real collector; HTTP/gRPC decoding is covered by the wire/router engines. Every non-empty key is judged (classic iff exactly one of the two published classic shapes; cross-checked against libhoney-go IsClassicKey); only the empty key is counted, not judged. Uses collect/verif_hooks.go VerifCheckTrace to read decisions of dropped traces."),
 ]
